@@ -19,6 +19,9 @@ def run(tier, seed):
              'site is dominated by a test excluding that state (announced => delivered)')
     rep.rule('READER.counter', 'the skip and stop tests of load_next_event compare the same counter, which is incremented exactly '
              'once per parsed record before both tests')
+    # lookups on constant tables reachable from the reader / the record writers (a value the reader refuses although it was stored)
+    from ..rules import sortedtab
+    sortedtab.check(rep, prog, [k for k, f in prog.functions.items() if '/bxdecay0/' in f.get('file', '') or '/programs/' in f.get('file', '')])
     es = prog.fn('bxdecay0::event::store')
     ps = prog.fn('bxdecay0::particle::store')
     rd = prog.fn('bxdecay0::event_reader::load_next_event')
